@@ -31,12 +31,16 @@ def base_vad():
                                                       ["p2", [["bit", "r", 3], ["bit", "b", 2]]], ["al1", [["net", "s1"]]]]},
              {"name": "p0", "module": "prim", "conns": [["x", [["c", 0]]], ["z", [["bit", "b", 2], ["c", 1]]], ["q", []]]},
              {"name": "p1", "module": "prim", "conns": [["x", [["bit", "r", 3]]], ["z", [["range", "b", 1, 0]]]]},
+             # the four-valued constants in both spellings of the value letter
+             {"name": "p2", "module": "prim", "conns": [["x", [["c", "X"]]], ["z", [["c", "z"], ["c", "Z"]]], ["q", [["c", "x"]]]]},
              {"name": "dd", "module": "leaf", "conns": [["d", [["net", "s1"], ["net", "s1"]]]]},   # one net on two bits of a port
              # a one-bit net based at 5; a bus of which only a middle bit is used (its lowest bit never is)
              {"name": "tt", "module": "leaf", "conns": [["i", [["bit", "t", 5]]], ["o", [["bit", "n2", 6]]]]},
              {"name": "u9", "module": "leaf", "positional": True,
               "conns": [[None, [["net", "s1"]]], [None, [["bit", "v", 0]]], [None, [["range", "r", 4, 3]]]]}],
-         "assigns": [[[["bit", "y", 0]], [["bit", "b", 1]]], [[["range", "r", 5, 4]], [["range", "b", 2, 1]]]]},
+         "assigns": [[[["bit", "y", 0]], [["bit", "b", 1]]], [[["range", "r", 5, 4]], [["range", "b", 2, 1]]],
+                     # bits of one bus assigned from other bits of the same bus
+                     [[["range", "n2", 5, 4]], [["range", "n2", 7, 6]]], [[["bit", "v", 1]], [["bit", "v", 0]]]]},
         {"name": "leaf", "celldefine": True, "ports": [["i", "in", None, None], ["o", "out", None, None], ["d", "out", 1, 0]]},
         {"name": "mid", "ports": [["p", "in", 1, 0], ["p2", "in", 1, 0], ["r", "out", 1, 0], ["al", "in", None, None, ["hi", "lo"]], ["al1", "in", None, None, ["one"]]],
          "insts": [{"name": "l", "module": "leaf", "conns": [["i", [["bit", "p", 0]]], ["d", [["net", "r"]]]]},
